@@ -80,13 +80,12 @@ Fixpoint heval1 (rec : hexpr -> store -> trace -> hres * store * trace)
               | (HB, s2, t2) => (HV VNone, s2, t2)
               | other => other
               end
-            else match orelse with
-                 | None => (HV VNone, s1, t1)
-                 | Some o => match seq o VNone s1 t1 with
-                             | (HV _, s2, t2) => (HV VNone, s2, t2)
-                             | other => other
-                             end
-                 end
+            else
+              (* leaving the loop costs one unit of fuel too: the else forms run at the next level *)
+              rec (HDo ((match orelse with Some o => o | None => [] end) ++ [HConst VNone])) s1 t1
+        (* the condition is evaluated inside the loop: break / continue in it act on this loop *)
+        | (HB, s1, t1) => (HV VNone, s1, t1)
+        | (HC, s1, t1) => rec (HWhile c body orelse) s1 t1
         | other => other
         end
     | HBreak => (HB, s, t)
@@ -125,7 +124,7 @@ Fixpoint heval1 (rec : hexpr -> store -> trace -> hres * store * trace)
         end
     end.
 
-(* fuel bounds the number of loop re-entries *)
+(* fuel bounds the number of loop re-entries and loop exits along any chain *)
 Fixpoint heval (fuel : nat) : hexpr -> store -> trace -> hres * store * trace :=
   heval1 (match fuel with O => fun _ s t => (HT, s, t) | S f => heval f end).
 
